@@ -87,13 +87,17 @@ Definition model_domain (w : world) : result mdomain :=
 Definition spec_domain (w : world) : option sdomain :=
   match world_sexp w with Ok e => read_domain (numtab w) e | Err _ => None end.
 
+(* the table an Operator ranges over (Operator.quantification_objects, D30): constants, then the problem's objects *)
+Definition m_objs (w : world) (d : mdomain) : objects := quantification_objects d (w_objs w).
+Definition s_objs (w : world) (d : sdomain) : objects := dupdate (sd_consts d) (w_objs w).
+
 (* ----- model answers for a probe ----- *)
 Definition model_app (w : world) (d : mdomain) (p : probe) : obs bool :=
   obs_of_result
     (match dget (d_actions d) (p_action p) with
      | None => Err EKey
      | Some a => do ga <- ground_action d a (p_args p);
-                 is_applicable d (w_eps w) (Some (w_objs w)) ga (p_state p)
+                 is_applicable d (w_eps w) (Some (m_objs w d)) ga (p_state p)
      end).
 
 Definition model_succ (w : world) (d : mdomain) (p : probe) : obs state :=
@@ -101,7 +105,7 @@ Definition model_succ (w : world) (d : mdomain) (p : probe) : obs state :=
     (match dget (d_actions d) (p_action p) with
      | None => Err EKey
      | Some a => do ga <- ground_action d a (p_args p);
-                 apply_op d (w_eps w) ga (Some (w_objs w)) false false (p_order p) (p_uorder p) (p_state p)
+                 apply_op d (w_eps w) ga (Some (m_objs w d)) false false (p_order p) (p_uorder p) (p_state p)
      end).
 
 (* ----- spec answers for a probe ----- *)
@@ -112,15 +116,15 @@ Definition spec_tt (d : sdomain) : tytree := spec_type_rows (sd_types d).
 
 Definition spec_app (w : world) (d : sdomain) (p : probe) : option bool :=
   match find_action d (p_action p) with
-  | Some a => Some (applicable (w_eps w) (spec_tt d) (w_objs w) a (p_args p) (p_state p))
+  | Some a => Some (applicable (w_eps w) (spec_tt d) (s_objs w d) a (p_args p) (p_state p))
   | None => None
   end.
 
 Definition spec_succ (w : world) (d : sdomain) (p : probe) : option (obs state) :=
   match find_action d (p_action p) with
   | Some a =>
-      if applicable (w_eps w) (spec_tt d) (w_objs w) a (p_args p) (p_state p)
-      then Some (Returned (successor (w_eps w) (spec_tt d) (w_objs w) a (p_args p) (p_state p)))
+      if applicable (w_eps w) (spec_tt d) (s_objs w d) a (p_args p) (p_state p)
+      then Some (Returned (successor (w_eps w) (spec_tt d) (s_objs w d) a (p_args p) (p_state p)))
       else Some Raised                                   (* refused: an error *)
   | None => None
   end.
@@ -161,7 +165,7 @@ Definition probe_verdicts (w : world) (p : probe) : list verdict :=
   let consistent_probe :=
     match sd with
     | Some d => match find_action d (p_action p) with
-                | Some a => consistent (all_groups (w_eps w) (spec_tt d) (w_objs w) a (p_args p) (p_state p))
+                | Some a => consistent (all_groups (w_eps w) (spec_tt d) (s_objs w d) a (p_args p) (p_state p))
                 | None => true end
     | None => true
     end in
